@@ -592,18 +592,25 @@ class HintTreeCode(HintTreeABC):
         #
         # Note that this should *NEVER* happen, but probably nonetheless will.
         if self.index_last >= FIXED_LIST_SIZE_MEDIUM:  # pragma: no cover
-            # Metadata encapsulating the previously enqueued root hint.
-            root_hint_meta = self._hint_queue[0]
+            # Parent hint currently being visited, which enqueues this child
+            # hint.
+            #
+            # Note that the metadata encapsulating the root hint has already
+            # been deinitialized by this point and thus *CANNOT* be embedded
+            # in this exception message. Attempting to do so would raise a
+            # non-human-readable "AttributeError" rather than this exception.
+            hint_parent = (
+                self.hint_curr.hint_sane.hint
+                if self.hint_curr is not None else
+                hint_child
+            )
 
-            # This root hint.
-            root_hint = root_hint_meta.hint_sane.hint
-
-            # Raise an exception embedding this root hint.
+            # Raise an exception embedding this parent hint.
             raise BeartypeDecorHintRecursionException(
                 f'{self.exception_prefix}child type hint {repr(hint_child)} '
                 f'non-type-checkable. '
                 f'Recursion detected when generating code type-checking from '
-                f'root type hint {repr(root_hint)} to this child type hint. '
+                f'parent type hint {repr(hint_parent)} to this child type hint. '
                 f'Please submit this exception traceback as a new issue '
                 f'to our friendly issue tracker:\n'
                 f'\t{URL_ISSUES}\n'
